@@ -84,10 +84,22 @@ Fixpoint drop_while {A} (f : A -> bool) (l : list A) : list A :=
   | x :: r => if f x then drop_while f r else l
   end.
 
+(* number of decimal digits of m (0 for 0) *)
+Fixpoint ndigits_aux (fuel : nat) (m : N) : Z :=
+  match fuel with
+  | O => 0%Z
+  | S f => if N.eqb m 0 then 0%Z else (1 + ndigits_aux f (m / 10)%N)%Z
+  end.
+Definition ndigits (m : N) : Z := ndigits_aux (S (N.to_nat (N.log2 m))) m.
+
 Definition dec_in_double_range (d : dec) : bool :=
-  (* 0 or within [2.2e-308, 1.8e308) *)
+  (* 0 or within [2.2e-308, 1.8e308): m * 10^e lies in [10^(mag-1), 10^mag), so only the two
+     decades that contain a threshold need the exact comparison *)
   N.eqb (dm d) 0 ||
-  (dec_leb {| dm := 22; de := -309 |} d && dec_ltb d {| dm := 18; de := 307 |}).
+  (let mag := (de d + ndigits (dm d))%Z in
+   if (Z.leb (-306) mag && Z.leb mag 308)%bool then true
+   else if (Z.leb mag (-308) || Z.leb 310 mag)%bool then false
+   else (dec_leb {| dm := 22; de := -309 |} d && dec_ltb d {| dm := 18; de := 307 |})%bool).
 
 Definition parse_stod (s : bytes) : dec :=
   let s := drop_while is_space s in
